@@ -16,7 +16,9 @@ import (
 
 	"github.com/deadsy/sdfx/sdf"
 	v2 "github.com/deadsy/sdfx/vec/v2"
+	"github.com/deadsy/sdfx/vec/v2i"
 	v3 "github.com/deadsy/sdfx/vec/v3"
+	"github.com/deadsy/sdfx/vec/v3i"
 
 	"verif/lib/shapes"
 	"verif/lib/vlib"
@@ -508,6 +510,49 @@ func main() {
 				if g, w := int3.Evaluate(p), math.Max(i, sph(0.4, 0.2, 0).Evaluate(p)); g != w {
 					bad("Intersect3D(nested union, sphere)", p, g, w)
 					break
+				}
+			}
+		}
+		// arrays with a blend installed (polynomial, round, chamfer, exponential): finite, never above
+		// the minimum over the copies, and for the polynomial blend at most (copies-1)*k/4 below it
+		{
+			type blf struct {
+				name string
+				f    sdf.MinFunc
+				poly float64
+			}
+			bls := []blf{{"PolyMin(0.3)", sdf.PolyMin(0.3), 0.3}, {"RoundMin(0.3)", sdf.RoundMin(0.3), 0}, {"ChamferMin(0.3)", sdf.ChamferMin(0.3), 0}, {"ExpMin(8)", sdf.ExpMin(8), 0}} // PowMin overflows on the arrays' MaxFloat64 start value on the unchanged tree (NaN); the property names the polynomial blend
+			for _, bl := range bls {
+				a3 := sdf.Array3D(sph(0, 0, 0), v3i.Vec{X: 3, Y: 2, Z: 1}, v3.Vec{X: 0.8, Y: 0.9, Z: 1})
+				a3.(*sdf.ArraySDF3).SetMin(bl.f)
+				a2 := sdf.Array2D(cir(0, 0), v2i.Vec{X: 3, Y: 2}, v2.Vec{X: 0.8, Y: 0.9})
+				a2.(*sdf.ArraySDF2).SetMin(bl.f)
+				states += 2
+				for _, p := range p3 {
+					m := math.Inf(1)
+					for i := 0; i < 3; i++ {
+						for j := 0; j < 2; j++ {
+							m = math.Min(m, sph(0, 0, 0).Evaluate(p.Sub(v3.Vec{X: 0.8 * float64(i), Y: 0.9 * float64(j)})))
+						}
+					}
+					g := a3.Evaluate(p)
+					if math.IsNaN(g) || math.IsInf(g, 0) || g > m+1e-9 || (bl.poly > 0 && g < m-5*bl.poly/4-1e-9) {
+						c.Violation("Array3D["+bl.name+"]|blended-array-not-within-the-bounds-of-the-blend", fmt.Sprintf("Array3D 3x2x1 of a sphere with %s at %v: %v, minimum over the copies %v", bl.name, p, g, m), map[string]any{"blend": bl.name, "point": p})
+						break
+					}
+				}
+				for _, p := range p2 {
+					m := math.Inf(1)
+					for i := 0; i < 3; i++ {
+						for j := 0; j < 2; j++ {
+							m = math.Min(m, cir(0, 0).Evaluate(p.Sub(v2.Vec{X: 0.8 * float64(i), Y: 0.9 * float64(j)})))
+						}
+					}
+					g := a2.Evaluate(p)
+					if math.IsNaN(g) || math.IsInf(g, 0) || g > m+1e-9 || (bl.poly > 0 && g < m-5*bl.poly/4-1e-9) {
+						c.Violation("Array2D["+bl.name+"]|blended-array-not-within-the-bounds-of-the-blend", fmt.Sprintf("Array2D 3x2 of a circle with %s at %v: %v, minimum over the copies %v", bl.name, p, g, m), map[string]any{"blend": bl.name, "point": p})
+						break
+					}
 				}
 			}
 		}
